@@ -37,6 +37,9 @@ CHECKS["C11"] = ("exploration", "exhaustive enumeration of complete finite space
 CHECKS["C14"] = ("model_checking", "bounded-exhaustive exploration of the real code: all histories of D steps including OS repeat events at every point, over a generated universe of key-producing action forms nested up to depth 2 on 1-3 layers with/without overrides; per-step safety oracle and a completeness probe at every leaf",
   "No explored repeat event produces more than one output, a non-repeat output, or a repeat for a key that is up at the OS; wherever a single held physical key holds output keys down, its repeat is forwarded to one of them. Exhaustive over the stated space.",
   "completeness probed only where the attribution of the down-set to the held key is certain (single non-layer key, no layer released since its press)", "DESIGN.md §4 C14")
+CHECKS["C07"] = ("model_checking", "bounded-exhaustive exploration of a loop twin of start_processing_loop over the real code (can_block_update_idle_waiting / handle_input_event / tick_ms), every history of D steps executed in two modes (block-when-allowed vs always-tick) and compared on ms-stamped outputs; stutter-invariance of the full state digest at every tick taken in a blockable state",
+  "For every explored history the blocking loop and the always-ticking loop emit identical ms-stamped outputs, and every tick taken where blocking is allowed is a no-op on the complete state digest (which, by determinism, extends the equality to all gap lengths and continuations from that state).",
+  "thread interleavings of the real threaded loop and scheduler jitter are not explored (see assumptions); live reload is C15", "DESIGN.md §4 C07")
 NOT_YET = {}
 props = [json.loads(l) for l in open('/verif/properties.jsonl')]
 hooks_commits = subprocess.run(["git","-C","/repo","log","--format=%h %s"],capture_output=True,text=True).stdout.splitlines()
